@@ -8,6 +8,7 @@ Univ == [catalogue |-> SetToSeq(Catalogue), pairseeds |-> SetToSeq(PairSeeds), n
          boundary |-> [metabg |-> SetToSeq(MetaBgImages), longext |-> SetToSeq(LongImages), bigdir |-> SetToSeq(DirImages),
                        recipes |-> [k \in DOMAIN Mandatory |-> SetToSeq(ImageRecipes(k))],
                        mandatory |-> [k \in DOMAIN Mandatory |-> SetToSeq(Mandatory[k])],
+                       roles |-> [k \in DOMAIN RolesOfKind |-> SetToSeq(RolesOfKind[k])],
                        consts |-> [ext_init_max |-> ExtInitMaxLen, ext_uninit_max |-> ExtUninitMaxLen,
                                    dx_root_limit |-> DxRootLimit(MinBlockSize, FALSE), dx_node_limit |-> DxNodeLimit(MinBlockSize, FALSE)]]]
 ASSUME JsonSerialize(IOEnv.OUT, Univ) /\ PrintT(<<"Emit_Corrupt", Cardinality(Catalogue), Cardinality(PairSeeds), Cardinality(Pairs) \div 2>>)
